@@ -1,0 +1,19 @@
+//go:build verif
+
+// Verification hooks (build tag verif). Not compiled by default.
+
+package store
+
+// VerifRegisterStore register a store instance for url, NewStore will return it
+func VerifRegisterStore(storeURL string, s Store) {
+	newStoreLock.Lock()
+	defer newStoreLock.Unlock()
+	stores.Store(storeURL, s)
+}
+
+// VerifUnregisterStore remove the store of url (does not close it)
+func VerifUnregisterStore(storeURL string) {
+	newStoreLock.Lock()
+	defer newStoreLock.Unlock()
+	stores.Delete(storeURL)
+}
